@@ -388,6 +388,14 @@ func (s *scheduler) establishIncomingHandshake(pc *conn.PendingConn, rb conn.Rem
 		s.failIncomingHandshake(pc, fmt.Errorf("torrent stat: %s", err))
 		return
 	}
+	// The pending slot is held under the info hash the remote peer sent, while the
+	// conn is created for the torrent its digest names.
+	if info.InfoHash() != pc.InfoHash() {
+		s.failIncomingHandshake(pc, fmt.Errorf(
+			"info hash mismatch: handshake has %s, torrent %s has %s",
+			pc.InfoHash(), pc.Digest().Hex(), info.InfoHash()))
+		return
+	}
 	c, err := s.handshaker.Establish(pc, info, rb)
 	if err != nil {
 		s.failIncomingHandshake(pc, fmt.Errorf("establish handshake: %s", err))
